@@ -807,3 +807,136 @@ func sortedKeys(m map[string]bool) []string {
 	sort.Strings(out)
 	return out
 }
+
+// checkPooledBuffersStartEmpty (R13.16, shared as R6.14): a byte buffer taken from an object pool may hold what its
+// previous user left in it - in the batching pool the tail of a batch whose write failed half-way. Every such buffer
+// is emptied (Reset / Truncate(0)) before anything else is done with it; otherwise the leftover requests of a batch
+// whose callers were told to retry are sent again in front of the next batch: they are executed a second time and
+// their replies arrive under opaques the reader does not expect.
+func checkPooledBuffersStartEmpty(c *core.Ctx, rule string) {
+	n := 0
+	for _, fn := range c.P.RepoFuncs("") {
+		counts := map[string]int{}
+		ssax.Instrs(fn, func(ins ssa.Instruction) {
+			ta, ok := ins.(*ssa.TypeAssert)
+			if !ok || types.TypeString(ta.AssertedType, nil) != "*bytes.Buffer" {
+				return
+			}
+			call, ok := ta.X.(*ssa.Call)
+			if !ok || ssax.CalleeName(&call.Call) != "(*sync.Pool).Get" {
+				return
+			}
+			n++
+			key := ordinalKey(counts, core.FuncName(fn)+"#pooled-buffer-emptied")
+			uses := func(i ssa.Instruction) bool {
+				for _, op := range i.Operands(nil) {
+					if op != nil && *op != nil && ssax.Unwrap(*op) == ssa.Value(ta) {
+						return true
+					}
+				}
+				return false
+			}
+			empties := func(i ssa.Instruction) bool {
+				cc := ssax.CallOf(i)
+				if cc == nil || len(cc.Args) == 0 || ssax.Unwrap(cc.Args[0]) != ssa.Value(ta) {
+					return false
+				}
+				switch ssax.CalleeName(cc) {
+				case "(*bytes.Buffer).Reset":
+					return true
+				case "(*bytes.Buffer).Truncate":
+					k, isC := ssax.ConstInt(cc.Args[1])
+					return isC && k == 0
+				}
+				return false
+			}
+			hit, _ := (ssax.Reach{Target: uses, Avoid: empties}).From(ta)
+			if hit != nil && poolReceivesOnlyEmptied(c, call.Call.Args[0]) {
+				c.OK(rule, key, c.P.Pos(ta.Pos()), "every buffer put into this pool was emptied just before")
+				return
+			}
+			c.Check(hit == nil, rule, key, c.P.Pos(ta.Pos()), "the buffer taken from the pool is emptied before its first use",
+				fmt.Sprintf("the buffer taken from the pool at %s is used at %s without having been emptied: what its previous user left in it (the unwritten tail of a failed batch) is sent again in front of the new contents", c.P.Pos(ta.Pos()), posOf(c, hit)))
+		})
+	}
+	if n == 0 {
+		c.Undecided(rule, "pools#byte-buffers", "-", "no byte buffer is taken from an object pool")
+	}
+}
+
+func posOf(c *core.Ctx, ins ssa.Instruction) string {
+	if ins == nil {
+		return "-"
+	}
+	return c.P.Pos(ins.Pos())
+}
+
+// poolReceivesOnlyEmptied: every Put into the pool (identified by the package-level variable it is loaded from) hands
+// over a buffer that was emptied after its last other use.
+func poolReceivesOnlyEmptied(c *core.Ctx, pool ssa.Value) bool {
+	g := globalOf(pool)
+	if g == nil {
+		return false
+	}
+	puts, ok := 0, true
+	for _, fn := range c.P.RepoFuncs("") {
+		ssax.Instrs(fn, func(ins ssa.Instruction) {
+			cc := ssax.CallOf(ins)
+			if cc == nil || ssax.CalleeName(cc) != "(*sync.Pool).Put" || len(cc.Args) != 2 || globalOf(cc.Args[0]) != g {
+				return
+			}
+			puts++
+			x := ssax.Unwrap(cc.Args[1])
+			emptied := false
+			ssax.Instrs(fn, func(r ssa.Instruction) {
+				rc := ssax.CallOf(r)
+				if rc == nil || len(rc.Args) == 0 || ssax.Unwrap(rc.Args[0]) != x || !ssax.DominatesInstr(r, ins) {
+					return
+				}
+				switch ssax.CalleeName(rc) {
+				case "(*bytes.Buffer).Reset":
+				case "(*bytes.Buffer).Truncate":
+					if k, isC := ssax.ConstInt(rc.Args[1]); !isC || k != 0 {
+						return
+					}
+				default:
+					return
+				}
+				used, _ := (ssax.Reach{
+					Target: func(i ssa.Instruction) bool {
+						if i == ins {
+							return false
+						}
+						if _, pure := i.(*ssa.MakeInterface); pure {
+							return false
+						}
+						for _, op := range i.Operands(nil) {
+							if op != nil && *op != nil && ssax.Unwrap(*op) == x {
+								return true
+							}
+						}
+						return false
+					},
+					Avoid: func(i ssa.Instruction) bool { return i == ins },
+				}).From(r)
+				if used == nil {
+					emptied = true
+				}
+			})
+			if !emptied {
+				ok = false
+			}
+		})
+	}
+	return ok && puts > 0
+}
+
+func globalOf(v ssa.Value) *ssa.Global {
+	v = ssax.Unwrap(v)
+	if u, isLoad := v.(*ssa.UnOp); isLoad {
+		if g, isG := u.X.(*ssa.Global); isG {
+			return g
+		}
+	}
+	return nil
+}
